@@ -2024,6 +2024,24 @@ class Interp:
         if not own and cal == 'core::slice::<impl [T]>::reverse' and not vals:
             done(('vec', tuple(reversed(xs))), UNIT)
             return True
+        if not own and cal in ('alloc::slice::<impl [T]>::sort_by_key', 'alloc::slice::<impl [T]>::sort_by_cached_key') and len(vals) == 1 and vals[0][0] in ('closure', 'fn'):
+            # sort_by_key(f) / sort_by_cached_key(f): the elements in ascending order of their keys f(&x), elements with equal keys in
+            # their original order (std: "This sort is stable (i.e., does not reorder equal elements)").  Modelled when f yields one
+            # known key for every element and all keys are of one kind that std and this comparison order alike: bool (false < true),
+            # integers, strings / octet strings (lexicographic by octet; UTF-8 keeps code point order)
+            keys, s1 = [], s
+            for x in xs:
+                ko = self.apply(vals[0], [x], e, s1)
+                if len(ko) != 1 or ko[0].kind != 'val' or ko[0].val[0] != 'lit':
+                    return False
+                k, s1 = ko[0].val[1], ko[0].st
+                keys.append(k.encode('utf-8') if isinstance(k, str) else k)
+            kinds = {bool if isinstance(k, bool) else int if isinstance(k, int) else bytes if isinstance(k, bytes) else None for k in keys}
+            if None in kinds or len(kinds) > 1:
+                return False
+            order = sorted(range(n), key=lambda i: keys[i])          # (sorted() is stable as well)
+            done(('vec', tuple(xs[i] for i in order)), UNIT, s1)
+            return True
         if not own and cal == 'core::slice::<impl [T]>::swap' and len(vals) == 2 and pos(vals[0]) is not None and pos(vals[1]) is not None:
             i, j = pos(vals[0]), pos(vals[1])
             if i >= n or j >= n:
